@@ -1221,4 +1221,19 @@ pub(crate) const MAX_PUBKEY_SIZE: usize = 97;""")]),
     dict(name='c04-tail-xor-counter-truncated', expect=[('C04', 'R04.1')], patch=BP + 'B25-1.diff',
          note='tail form of mix_nonce whose counter bytes come from seq.0 as u32 (nonces repeat after 2^32 messages)',
          edits=[(AEAD, "write_u64_be(&mut seq_bytes, seq.0);", "write_u64_be(&mut seq_bytes, u64::from(seq.0 as u32));")]),
+    dict(name='c09-closure-parse-before-guard', expect=[('C09', 'R09.1'), ('C12', 'R12.2')],
+         note='the NIST public-key parser, wrapped in a closure that captures the input, runs before the length guard: malformed input of the wrong length is reported as ValidationError',
+         edits=[(NIST, """                    enforce_equal_len(Self::OutputSize::to_usize(), encoded.len())?;
+
+                    // Now just deserialize. The non-identity invariant is preserved because
+                    // PublicKey::from_sec1_bytes() will error if it receives the point at
+                    // infinity. This is because its submethod, PublicKey::from_encoded_point(),
+                    // does this check explicitly.
+                    let parsed = curve_crate::PublicKey::from_sec1_bytes(encoded)
+                        .map_err(|_| HpkeError::ValidationError)?;""", """                    let parse = || {
+                        curve_crate::PublicKey::from_sec1_bytes(encoded)
+                            .map_err(|_| HpkeError::ValidationError)
+                    };
+                    let parsed = parse()?;
+                    enforce_equal_len(Self::OutputSize::to_usize(), encoded.len())?;""")]),
 ]
